@@ -59,7 +59,7 @@ func listMutants(filter []string) []mutant {
 			return true
 		}
 		for _, f := range filter {
-			if f == prop || f == name {
+			if f == prop || f == name || f == "seeded/"+name {
 				return true
 			}
 		}
